@@ -17,12 +17,15 @@ Inductive tspec :=
 | Switch (sid : nat) (cases : list (tspec * tspec))
 | Guard (sid : nat) (ok : bool) (kid : tspec)
 | AltD (sid : nat) (branches : list tspec)
-| NotS (sid : nat) (kid : tspec).                  (* Not(kid): a failure of the sub-spec is recovered from (the target passes), a success is refused with the Not's OWN error *)      (* Guard: Check(kid, ...): the sub-spec runs in a scope of its own, then the guard passes
+| NotS (sid : nat) (kid : tspec)
+| AndS (sid : nat) (kids : list tspec).                  (* Not(kid): a failure of the sub-spec is recovered from (the target passes), a success is refused with the Not's OWN error *)      (* Guard: Check(kid, ...): the sub-spec runs in a scope of its own, then the guard passes
                                                         the target on or raises its OWN error — a spec that fails after its children succeeded *)
 
+(* AndS: And(a, b, ...): every child on the same target in a scope of its own, the first failure propagates, the value is the last
+   child's (the target when there is none) *)
 (* AltD: Coalesce(..., default_factory=f) — when every alternative fails or is skipped the factory's value is the result, and nothing
    is evaluated after the last (failed) alternative: a spec that recovers *)
-Definition sid_of s := match s with Leaf n _ | SkipLeaf n | Nest n _ | Chain n _ | Alt n _ | OrS n _ | Switch n _ | Guard n _ _ | AltD n _ | NotS n _ => n end.
+Definition sid_of s := match s with Leaf n _ | SkipLeaf n | Nest n _ | Chain n _ | Alt n _ | OrS n _ | Switch n _ | Guard n _ _ | AltD n _ | NotS n _ | AndS n _ => n end.
 
 Record frame := mkF { f_spec : nat; f_target : nat; f_up : nat; f_last : option nat;
                       f_cerrs : list nat; f_err : option nat; f_nopy : bool }.
@@ -57,6 +60,9 @@ Definition same_err (o : option nat) (e : nat) : bool := match o with Some x => 
 Fixpoint nest_loop (rec : recfn) (sid : nat) (st : store) (f t : nat) (kids : list tspec) : store * out :=
   match kids with [] => (st, Ret (1000 + sid))
   | k :: r => match rec st f t k with (st, Ret _) => nest_loop rec sid st f t r | (st, Exc e) => (st, Exc e) end end.
+Fixpoint and_loop (rec : recfn) (st : store) (f t : nat) (kids : list tspec) (last : nat) : store * out :=
+  match kids with [] => (st, Ret last)
+  | k :: r => match rec st f t k with (st, Ret v) => and_loop rec st f t r v | (st, Exc e) => (st, Exc e) end end.
 Fixpoint chain_loop (rec : recfn) (st : store) (cur res : nat) (steps : list tspec) : store * out :=
   match steps with [] => (st, Ret res)
   | s :: r => let '(st, cur') := chain_child st cur in
@@ -102,6 +108,7 @@ Fixpoint glom_ (fuel : nat) (st : store) (parent t : nat) (s : tspec) {struct fu
     | NotS n kid => match glom_ fuel st f t kid with
                     | (st, Ret _) => (st, Exc (6000 + n))
                     | (st, Exc _) => (st, Ret t) end
+    | AndS _ kids => and_loop (glom_ fuel) st f t kids t
     end in
   match r with
   | Ret v => (st, Ret v)
@@ -156,7 +163,8 @@ Fixpoint tdepth (s : tspec) : nat :=
   | Switch _ cs => S (fold_right (fun kv acc => let '(k, v) := kv in Nat.max (Nat.max (tdepth k) (tdepth v)) acc) 0 cs)
   | Guard _ _ k => S (tdepth k)
   | AltD _ l => S (fold_right (fun x acc => Nat.max (tdepth x) acc) 0 l)
-  | NotS _ k => S (tdepth k) end.
+  | NotS _ k => S (tdepth k)
+  | AndS _ l => S (fold_right (fun x acc => Nat.max (tdepth x) acc) 0 l) end.
 
 Definition root_store : store := [dummy].
 Definition root_target : nat := 7.
